@@ -57,6 +57,12 @@ func (w *World) canon(v ssa.Value, d int) string {
 	case *ssa.Parameter:
 		for k := len(w.inlineEnv) - 1; k >= 0; k-- {
 			if sv, ok := w.inlineEnv[k][x]; ok {
+				// with helpers inlined: the argument's form with its helpers inlined
+				if w.inlineHelpers {
+					if tw, ok := w.inlTwin[sv]; ok {
+						return tw
+					}
+				}
 				return sv
 			}
 		}
@@ -556,6 +562,23 @@ func (w *World) CanonAtCallers(fn *ssa.Function, v ssa.Value) []string {
 		}
 	}
 	return out
+}
+
+// noteInlinedTwin records, for the plain canonical form of an argument bound to a
+// helper parameter, the form with one-expression helpers inlined (used when a
+// condition inside the helper is compared with helpers inlined).
+func (w *World) noteInlinedTwin(plain string, v ssa.Value) {
+	if w.inlineHelpers || !strings.Contains(plain, "(") {
+		return
+	}
+	tw := w.CanonI(v)
+	if tw == plain {
+		return
+	}
+	if w.inlTwin == nil {
+		w.inlTwin = map[string]string{}
+	}
+	w.inlTwin[plain] = tw
 }
 
 // CanonDeep: CanonI with helpers inlined through up to six levels.
